@@ -275,9 +275,11 @@ def takenAsIs (c : Ctx) (s : CallSt) (v : Vtx) : Bool :=
   | .value .. => c.takeValuedNamed && (s.get v).isSome
   | _ => false
 
-/-- a usable path: non-empty, along edges of the reversed graph, ending in the requirement -/
+/-- a usable path: starts at the root (`EdgeToPath` over Dijkstra's predecessor map on a pruned graph,
+in which every vertex is reachable from the root, always does), runs along edges of the reversed
+graph, ends in the requirement -/
 def validPath (g : AGraph Vtx) (current : Vtx) (p : List Vtx) : Bool :=
-  !p.isEmpty && p.getLast? == some current && AGraph.isPathB g.reverse p
+  !p.isEmpty && p.head? == some Vtx.root && p.getLast? == some current && AGraph.isPathB g.reverse p
 
 def pathInput (p : List Vtx) : Option Vtx :=
   match p with
